@@ -116,6 +116,16 @@ FAMILY: list[ModelGrammar] = [
         "Top": ("concrete", None, [("m", C("Mid")), ("k", INT)]), "Mid": ("concrete", None, [("b", lst(C("Bot")))]),
         "Bot": ("abstract", None, []), "B1": ("concrete", "Bot", [("v", INT)]), "B2": ("concrete", "Bot", [("w", C("B1"))]),
     }, ["Mid", "B1", "B2"]),
+    ModelGrammar("a cycle through five abstract stages (each stage also has a leaf)", "S1", dict(
+        [(f"S{i}", ("abstract", None, [])) for i in range(1, 6)]
+        + [(f"P{i}", ("concrete", f"S{i}", [("x", C(f"S{i % 5 + 1}"))])) for i in range(1, 6)]
+        + [(f"Z{i}", ("concrete", f"S{i}", [])) for i in range(1, 6)]),
+        [f"P{i}" for i in range(1, 6)] + [f"Z{i}" for i in range(1, 6)]),
+    ModelGrammar("a cycle through five abstract stages, named against the iteration order", "V5", dict(
+        [(f"V{i}", ("abstract", None, [])) for i in range(1, 6)]
+        + [(f"Q{i}", ("concrete", f"V{i}", [("x", C(f"V{(i - 2) % 5 + 1}"))])) for i in range(1, 6)]
+        + [(f"Y{i}", ("concrete", f"V{i}", [("v", INT)])) for i in range(1, 6)]),
+        [f"Y{i}" for i in range(5, 0, -1)] + [f"Q{i}" for i in range(5, 0, -1)]),
     ModelGrammar("self recursion through an annotated list and a list of annotated", "T", {
         "T": ("abstract", None, []), "Nil": ("concrete", "T", []),
         "Cons": ("concrete", "T", [("kids", lst(ann(C("T"))))]), "Wrap": ("concrete", "T", [("k", ann(lst(C("Nil")), "MHL"))]),
